@@ -71,7 +71,8 @@ CHECKS = {
         "smallest shapes are run through allocate_cost_volume/validity_mask/compute_cost_volume/cv_masked; each cost and "
         "each NaN is compared with the documented measure (exact for sad/ssd/census, atol for zncc).",
         "Trusted: mc/ref/cost.py; integer radiometry, also scaled exactly (12-bit, 2^-20, level 20000 with a dozen grey "
-        "levels of texture); images at least one window large.",
+        "levels of texture) and, one instance each, long 12-bit lines (1300 columns) and 16-bit strips (420 columns, 300 rows); "
+        "images at least one window large.",
         "E1",
     ),
     "C04": (
@@ -82,7 +83,8 @@ CHECKS = {
         "Pre-validation flags of every enumerated scene are compared bit by bit with mc/ref/flags.py (left and right), the "
         "three-way equivalence invalid flag <=> all costs NaN <=> invalid_disparity is checked after every step, and for "
         "every legal pipeline of <= 3/4 later steps (repeats included) each step may only add its own documented bits.",
-        "Trusted: reference of the documented bits; intervals bounded to |d| < width; instance-level observers.",
+        "Trusted: reference of the documented bits; intervals bounded to |d| < width (one scale instance: 256 integer "
+        "disparities on a 300-column image); instance-level observers.",
         "E1",
     ),
     "C05": (
@@ -177,7 +179,8 @@ CHECKS = {
         "Each case is one whole-image run, one flipped run and 6 (quick) / up to 96 (thorough) crop runs; every pixel whose "
         "conservatively computed dependency cone lies inside the crop must have bit-identical disparity and flags; "
         "compared-pixel counts are reported.",
-        "Trusted: mc/ref/cone.py (conservative cone); integer radiometry; tiles handed over as copies, zero-copy "
+        "Trusted: mc/ref/cone.py (conservative cone); integer radiometry (8-bit, 12-bit, and 16-bit strips whose tiles lie "
+        "far from the first row / column); tiles handed over as copies, zero-copy "
         "windows of a larger array, or column-major arrays.",
         "E1",
     ),
